@@ -380,9 +380,9 @@ func cmdCheck(args []string) {
 		fmt.Println("ERROR: cannot load /repo with -tags verif:", err)
 		os.Exit(3)
 	}
-	tmo, shortT := 10, 2
+	tmo, shortT := 25, 2
 	if *tier == "thorough" {
-		tmo, shortT = 60, 20
+		tmo, shortT = 90, 30
 	}
 	var led Ledger
 	if data, err := os.ReadFile(filepath.Join(*verif, "ledger", *prop+".json")); err == nil {
@@ -453,6 +453,12 @@ func cmdCheck(args []string) {
 				}
 				fmt.Printf("VIOLATION property=%s replay=%s obligation=%s status=%s%s\n", *prop, path, n, r.Status, suffix)
 			}
+		case r.Kind == "map-order" && r.Status != "discharged":
+			// the map-order analysis is decidable and passes for every map range of the unchanged
+			// tree: a new failing loop is a violation even though its name is not in the ledger
+			violations++
+			path := writeReplay(replayDir, *prop, r, w)
+			fmt.Printf("VIOLATION property=%s replay=%s obligation=%s status=%s no-failing-input-found\n", *prop, path, n, r.Status)
 		default:
 			if r.Status != "discharged" {
 				undecided = append(undecided, n)
